@@ -83,6 +83,8 @@ def run(chk):
     chk.ob('R05.4', len(kinds) == 1, 'compmech/analysis/linear_buckling.py', 'lb / Panel.lb / ConeCyl.lb', 'sibling agreement',
            expected='all solver calls of the three drivers use the same pencil and transform', got=sorted(map(str, kinds)),
            sample='siblings: %s' % sorted(map(str, kinds)))
+    r05_6(chk)
+    r05_7(chk)
     chk.explanation = ('for every eigsh/eigh call of lb, Panel.lb and ConeCyl.lb the roles of the operands are resolved by '
                        'reaching definitions, the eigenvalue transform applied on every CFG path is compared with the pencil, and '
                        'the null-column reduction is paired with the expansion of the eigenvectors')
@@ -173,3 +175,139 @@ def r05_2(chk, drv, site, tag):
                got='buffer %s columns, source %s, solver k=%s' % (ncols, src, kdefs),
                detail='' if okc else 'the buffer always has %s columns but the scattered array %s has a different column count for small matrices (k = %s / min(n_reduced, ...)): ValueError' % (ncols, src, kdefs),
                sample='%s %s: buffer %s columns, source %s' % (fname, tag, ncols, src))
+
+
+CONECYL = 'compmech/conecyl/conecyl.py'
+LOADWORD = {'axial': 'Fc', 'torsion': 'T', 'pressure': 'P'}
+
+
+def self_attrs(node):
+    return sorted({n.attr for n in ast.walk(node) if isinstance(n, ast.Attribute) and dotted(n.value) == 'self'})
+
+
+def r05_6(chk):
+    """combined load cases of ConeCyl.lb: the documented case table (which load is fixed, which one is critical)
+    decides the pencil - k0 plus the geometric matrix of the FIXED load on the stiffness side, the geometric matrix
+    of the load whose critical value is sought on the other - and each kG0_<load> is built from that load alone"""
+    m = module(CONECYL)
+    fn = m.method('ConeCyl', 'lb')
+    doc = ast.get_docstring(fn) or ''
+    table = {int(a): (LOADWORD.get(b), LOADWORD.get(c)) for a, b, c in re.findall(r'``(\d)``\s*:\s*find the critical (\w+)\s+load for a fixed (\w+)\s+load', doc)}
+    chk.need(len(table) >= 3 and all(a and b for a, b in table.values()), 'ConeCyl.lb: combined_load_case table not found in the docstring')
+    found = {}
+    for node in ast.walk(fn):
+        if not isinstance(node, ast.If):
+            continue
+        t = norm(node.test)
+        mt = re.match(r'^combined_load_case==(\d)$', t)
+        if mt:
+            key = int(mt.group(1))
+        elif t in ('notcombined_load_case', 'combined_load_caseisNone'):
+            key = None
+        else:
+            continue
+        asg = {norm(st.targets[0]): st for st in node.body if isinstance(st, ast.Assign)}
+        if 'M' in asg and 'A' in asg:
+            found[key] = (asg['M'], asg['A'])
+    n = 0
+    for key in [None] + sorted(table):
+        if key not in found:
+            chk.ob('R05.6', False, CONECYL, 'ConeCyl.lb', 'combined_load_case %s branch' % key, expected='a branch assigning M and A', got='missing')
+            continue
+        M, A = found[key]
+        if key is None:
+            wm, wa = ['k0'], ['kG0']
+            txt = 'all loads together are the reference load'
+        else:
+            crit, fixed = table[key]
+            wm, wa = sorted(['k0', 'kG0_' + fixed]), ['kG0_' + crit]
+            txt = 'documented: critical %s load for a fixed %s load' % (crit, fixed)
+        gm, ga = self_attrs(M.value), self_attrs(A.value)
+        additive = not any(isinstance(x, (ast.Sub, ast.USub, ast.Mult, ast.Div)) for x in ast.walk(M.value)) and not any(isinstance(x, (ast.Sub, ast.USub, ast.Mult, ast.Div, ast.Add)) for x in ast.walk(A.value))
+        n += 1
+        chk.ob('R05.6', gm == wm and ga == wa and additive, CONECYL, 'ConeCyl.lb', 'combined_load_case %s pencil' % key, line=M.lineno,
+               expected='M = %s, A = %s (%s)' % (' + '.join(wm), wa[0], txt), got='M from %s, A from %s' % (gm, ga),
+               detail='' if gm == wm and ga == wa else 'the returned multipliers are not those of (k0 + kG_fixed + lambda*kG_critical) v = 0',
+               sample='ConeCyl.lb case %s: M=%s A=%s' % (key, '+'.join(gm), '+'.join(ga)))
+    chk.floor('R05.6 load-case branches', n, 4)
+    # each kG0_<load> from that load alone
+    fn2 = m.method('ConeCyl', '_calc_linear_matrices')
+    pos = {'Fc': 0, 'P': 1, 'T': 2}
+    k = 0
+    for st in ast.walk(fn2):
+        if isinstance(st, ast.Assign) and isinstance(st.targets[0], ast.Name) and re.match(r'^kG0(_\w+)?$', st.targets[0].id) and isinstance(st.value, ast.Call) \
+                and callee_name(st.value) in ('fkG0', 'fkG0_cyl'):
+            name = st.targets[0].id
+            args = [norm(a) for a in st.value.args[:3]]
+            want = ['Fc', 'P', 'T'] if name == 'kG0' else [w if pos[w] == pos.get(name[4:], -1) else '0' for w in ('Fc', 'P', 'T')]
+            k += 1
+            chk.ob('R05.6', args == want, CONECYL, 'ConeCyl._calc_linear_matrices', '%s built from its own load (%s)' % (name, callee_name(st.value)), line=st.lineno,
+                   expected='%s(%s, ...)' % (callee_name(st.value), ', '.join(want)), got='%s(%s, ...)' % (callee_name(st.value), ', '.join(args)),
+                   sample='%s = %s(%s, ...)' % (name, callee_name(st.value), ', '.join(args)))
+        if isinstance(st, ast.Assign) and isinstance(st.targets[0], ast.Attribute) and dotted(st.targets[0].value) == 'self' and re.match(r'^kG0(_\w+)?$', st.targets[0].attr):
+            src = [x.id for x in ast.walk(st.value) if isinstance(x, ast.Name) and x.id.startswith('kG0')]
+            if src:
+                k += 1
+                chk.ob('R05.6', src == [st.targets[0].attr], CONECYL, 'ConeCyl._calc_linear_matrices', 'self.%s stored from %s' % (st.targets[0].attr, st.targets[0].attr), line=st.lineno,
+                       got=src, sample='self.%s = f(%s)' % (st.targets[0].attr, ','.join(src)))
+    chk.floor('R05.6 geometric-matrix builders', k, 12)
+    # the kernels take (Fc, P, T) in this order
+    from . import pyxast
+    from .report import repo_path, REPO
+    import os
+    ns = 0
+    for rel in sorted(pyxast.built_sources(REPO)):
+        if not re.match(r'compmech/conecyl/(clpt|fsdt)/.*_linear\.pyx$', rel):
+            continue
+        u = pyxast.parse(repo_path(rel), REPO)
+        for fname in ('fkG0', 'fkG0_cyl'):
+            f = u.func(fname)
+            if f is None:
+                continue
+            names = [a.arg for a in f.args.args[:3]]
+            ns += 1
+            chk.ob('R05.6', names == ['Fc', 'P', 'T'], rel, fname, 'load arguments in the order (Fc, P, T)', line=f.lineno, got=names,
+                   sample='%s.%s(%s, ...)' % (os.path.basename(rel), fname, ', '.join(names)) if ns % 8 == 1 else None)
+    chk.floor('R05.6 kernel signatures', ns, 28)
+
+
+def r05_7(chk):
+    """the reference load is the one the user supplied: where ConeCyl._rebuild lets one load attribute override
+    another (`if self.X is not None: self.Y[..] = f(self.X)`), a default `self.X = <constant>` in the buckling driver
+    is taken only when neither X nor Y was given - otherwise the supplied load is overwritten by the constant and
+    scaling it no longer changes the multipliers"""
+    m = module(CONECYL)
+    rb = m.method('ConeCyl', '_rebuild')
+    over = {}
+    for node in ast.walk(rb):
+        if isinstance(node, ast.If):
+            mt = re.match(r'^self\.(\w+)isnotNone$', norm(node.test))
+            if not mt:
+                continue
+            x = mt.group(1)
+            for st in node.body:
+                if isinstance(st, ast.Assign) and isinstance(st.targets[0], ast.Subscript) and dotted(st.targets[0].value.value if isinstance(st.targets[0].value, ast.Attribute) else None) == 'self' \
+                        and ('self.' + x) in norm(st.value):
+                    over.setdefault(x, set()).add(st.targets[0].value.attr)
+    chk.need('Fc' in over and 'Nxxtop' in over['Fc'], 'ConeCyl._rebuild: the Fc -> Nxxtop[0] derivation was not found')
+    fn = m.method('ConeCyl', 'lb')
+    n = 0
+    for node in ast.walk(fn):
+        if not isinstance(node, ast.Assign) or not isinstance(node.targets[0], ast.Attribute) or dotted(node.targets[0].value) != 'self':
+            continue
+        x = node.targets[0].attr
+        if x not in over or not isinstance(node.value, ast.Constant):
+            continue
+        tests = [norm(t) for t, pol in pyrules.enclosing_tests(fn, node) if pol]
+        conj = set()
+        for t, pol in pyrules.enclosing_tests(fn, node):
+            if pol:
+                parts = t.values if isinstance(t, ast.BoolOp) and isinstance(t.op, ast.And) else [t]
+                conj |= {norm(p) for p in parts}
+        need = {'self.%sisNone' % x} | {'self.%sisNone' % y for y in over[x]}
+        n += 1
+        chk.ob('R05.7', need <= conj, CONECYL, 'ConeCyl.lb', 'default self.%s = %s only when no load was supplied' % (x, norm(node.value)), line=node.lineno,
+               expected='guarded by ' + ' and '.join(sorted(need)), got=tests,
+               detail='' if need <= conj else 'ConeCyl._rebuild overwrites self.%s[0] from self.%s whenever %s is set: a load supplied through %s is replaced by the default, and scaling it leaves the multipliers unchanged' % (sorted(over[x])[0], x, x, sorted(over[x])[0]),
+               sample='ConeCyl.lb: self.%s = %s under %s' % (x, norm(node.value), tests))
+    chk.floor('R05.7 default reference loads', n, 1)
